@@ -11,6 +11,8 @@ import Mathlib.Analysis.SpecialFunctions.Pow.Deriv
 import Mathlib.Analysis.SpecialFunctions.Pow.Continuity
 import Mathlib.Analysis.SpecialFunctions.ExpDeriv
 import Mathlib.MeasureTheory.Integral.IntervalIntegral.FundThmCalculus
+import Mathlib.Analysis.SpecialFunctions.Integrals.Basic
+import Mathlib.Analysis.SpecialFunctions.ImproperIntegrals
 import Mathlib.Tactic
 
 open Flux
@@ -1792,6 +1794,59 @@ theorem c13_heap_set_params_v_num (pn : ParamNames) (h : Heap ℝ) (i : Nat) (pd
   rw [C13.setParamsV_eq_fold, C13.setParams_eq_fold]
   exact C13.foldV_heap_num pn pd hn _ h false
 
+/-! ## 10. round 5: the boundary of the energy support — `E1 = 0` (hard spectra) and `E2 = ∞` (soft spectra) -/
+
+theorem C13.plCall_eq_nonneg {E0 γ x : ℝ} (hE0 : 0 < E0) (hx : 0 ≤ x) : plCall E0 γ x = E0 ^ γ * x ^ (-γ) := by
+  unfold plCall
+  rw [Real.div_rpow hx hE0.le, Real.rpow_neg hE0.le]
+  field_simp
+
+/-- **closed form = integral from the lower edge of the energy support**: for a hard spectrum (`γ < 1`) the
+power law is integrable down to `E = 0` and the coded closed form with `E1 = 0` (where `0^(1-γ) = 0`) is the
+integral of the profile values over `[0, E2]`. -/
+theorem c13_pl_integral_from_zero {E0 γ E2 : ℝ} (hE0 : 0 < E0) (hγ : γ < 1) (h2 : 0 ≤ E2) :
+    ∫ x in (0:ℝ)..E2, plCall E0 γ x = plIntegral E0 γ 0 E2 := by
+  have hne : γ ≠ 1 := ne_of_lt hγ
+  have hb : (γ == 1) = false := by simpa using hne
+  have hcongr : ∫ x in (0:ℝ)..E2, plCall E0 γ x = ∫ x in (0:ℝ)..E2, E0 ^ γ * x ^ (-γ) := by
+    apply intervalIntegral.integral_congr
+    intro x hx
+    rw [Set.uIcc_of_le h2] at hx
+    exact C13.plCall_eq_nonneg hE0 hx.1
+  rw [hcongr, intervalIntegral.integral_const_mul, integral_rpow (Or.inl (by linarith))]
+  unfold plIntegral
+  simp only [hb]
+  have h0 : (0:ℝ) ^ (1 - γ) = 0 := Real.zero_rpow (by linarith)
+  have e : -γ + 1 = 1 - γ := by ring
+  rw [e, h0]
+  have h1 : (1 - γ) ≠ 0 := by linarith
+  simp only [Bool.false_eq_true, if_false]
+  field_simp
+
+/-- additivity including the lower edge: `I(0,b) + I(b,c) = I(0,c)` for `γ < 1` -/
+theorem c13_pl_integral_additive_from_zero {E0 γ b c : ℝ} (hγ : γ ≠ 1) :
+    plIntegral E0 γ 0 b + plIntegral E0 γ b c = plIntegral E0 γ 0 c := by
+  have hb : (γ == 1) = false := by simpa using hγ
+  unfold plIntegral
+  simp only [hb, Bool.false_eq_true, if_false]
+  ring
+
+/-- **closed form = integral up to infinity** for a soft spectrum (`γ > 1`): the coded closed form with
+`E2 = ∞` (`np.power(inf, 1-γ) = 0`, i.e. the term of `E2` vanishes) is the improper integral of the
+profile values over `(E1, ∞)`. -/
+theorem c13_pl_integral_to_infinity {E0 γ E1 : ℝ} (hE0 : 0 < E0) (hγ : 1 < γ) (h1 : 0 < E1) :
+    ∫ x in Set.Ioi E1, plCall E0 γ x = E0 ^ γ / (1 - γ) * (0 - E1 ^ (1 - γ)) := by
+  have hcongr : ∫ x in Set.Ioi E1, plCall E0 γ x = ∫ x in Set.Ioi E1, E0 ^ γ * x ^ (-γ) := by
+    apply MeasureTheory.setIntegral_congr_fun measurableSet_Ioi
+    intro x hx
+    exact C13.plCall_eq_nonneg hE0 (h1.le.trans (le_of_lt hx))
+  rw [hcongr, MeasureTheory.integral_const_mul, integral_Ioi_rpow_of_lt (by linarith) h1]
+  have e : -γ + 1 = 1 - γ := by ring
+  rw [e]
+  have hne : (1 - γ) ≠ 0 := by linarith
+  field_simp
+  ring
+
 /-! ## non-vacuity of the hypotheses used above -/
 
 example : ∃ E0 γ E1 E2 : ℝ, 0 < E0 ∧ 0 < E1 ∧ 0 < E2 ∧ γ ≠ 1 :=
@@ -1844,3 +1899,5 @@ example : ∀ j cj, j ∈ targets ([.unityS, .pl 1 2, .box ⟨0, 1⟩, .ffm 1 [0
   rcases hj with rfl | rfl | rfl | rfl <;>
     simp only [List.getElem?_cons_succ, List.getElem?_cons_zero, Option.some.injEq] at hcj <;>
     subst hcj <;> simp [C13.names_expected] at hn ⊢
+example : ∃ E0 γ E2 : ℝ, 0 < E0 ∧ γ < 1 ∧ 0 ≤ E2 := ⟨10, 1 / 2, 1000, by norm_num, by norm_num, by norm_num⟩
+example : ∃ E0 γ E1 : ℝ, 0 < E0 ∧ 1 < γ ∧ 0 < E1 := ⟨10, 2, 100, by norm_num, by norm_num, by norm_num⟩
